@@ -192,4 +192,26 @@ inductive Step : St → St → Prop
         voted := s.voted.filter (fun x => decide (x.1 ≠ j) || decide (x ∈ s.svoted))
         acks := s.acks.filter (fun x => decide (x.1 ≠ j) || decide (x ∈ s.sacks)) }
 
+/-- the initial state: everybody a follower in term 0 with an empty log, nothing sent or recorded
+    (lives here, in the core-only part, because the executable checker `ExecCore.run` starts from it) -/
+def init : St where
+  term := fun _ => 0
+  role := fun _ => Role.follower
+  log := fun _ => []
+  commit := fun _ => 0
+  msgs := []
+  hbs := []
+  tlog := fun _ => []
+  elected := []
+  camp := []
+  candLog := fun _ => []
+  voted := []
+  acks := []
+  dterm := fun _ => 0
+  dlog := fun _ => []
+  dcommit := fun _ => 0
+  scamp := []
+  svoted := []
+  sacks := []
+
 end Z.RaftAbs
